@@ -367,6 +367,7 @@ def run(ctx):
             from .. import c10_poly
             ptxt, poly_info = c10_poly.generate()
             ctx.write_gen('C10GenPoly', ptxt)
+            ctx.write_gen('C10GenPolyH', poly_info.pop('_heavy'))
         except TranslateError as e:
             ctx.broke('translator', 'c10_poly.generate(lbasis of the mesh elements, refdom, doflocs)', e)
     if gen_ok:
@@ -378,7 +379,7 @@ def run(ctx):
             if poly_info and last:
                 from concurrent.futures import ThreadPoolExecutor
                 bridge_pool = ThreadPoolExecutor(1)                 # coqc subprocess: runs beside the property file and the correspondences
-                bridge_future = bridge_pool.submit(compile_parallel, ctx, last)
+                bridge_future = bridge_pool.submit(lambda: compile_parallel(ctx, ['gen/C10GenPolyH.v']) and compile_parallel(ctx, last))
     ctx.prove()
     if gen_ok:
         affine_correspondence(ctx, rng)
